@@ -221,7 +221,7 @@ RefRoute(op) == IF op.name = "conv" THEN "burgers" ELSE "classic"
 \* pairs of routes that run the same evaluation order on one thread: any difference is a divergence, not rounding
 BitwiseWithRef(op, r) == (RefRoute(op) = "classic" /\ r = "domain") \/ (RefRoute(op) = "burgers" /\ r = "burgersjob")
 \* routes that take the scaling factor alpha and add onto the existing matrix (AssembleTwice)
-AlphaRoutes == {"classic", "domain", "burgers", "burgersjob", "voxel", "voxeldefo"}
+AlphaRoutes == {"classic", "domain", "burgers", "burgersjob", "voxel", "voxeldefo"}      \* all of RepeatSemantics "accumulate"
 
 OpSensible(op, shape, dim, class, T, R) ==    \* a derivative on piecewise constants is identically zero: not a job
   /\ (NDeriv(op)[1] = 1 => LocalDeg(R, shape) >= 1)
@@ -270,6 +270,45 @@ GDScales == <<<<-2, -2>>, <<4, -1>>>>        \* (scale_b, scale_d) as numerators
 GDJob(shape, dim, class, V, P, sl) ==
   [k |-> "gd", deg |-> ReqDegMat(shape, dim, class, V, P, Op("testderiv", <<0>>)) + sl, scales |-> GDScales,
    routes |-> <<"gpdv", "gradop">>, ref |-> "classic", blk |-> [m \in 1..dim |-> Op("testderiv", <<m - 1>>)]]
+
+\* ---- Burgers parameter combinations ------------------------------------------------------------------------------------
+\* The Burgers assemblers build  nu*L (gradient or deformation form) + theta*M + beta*K(v) + frechet_beta*K'(v) + S(sd_delta)
+\* from switches "parameter # 0".  EVERY non-empty on/off combination is a job (kind "bpar"), on every Burgers route, scalar
+\* (assemble_scalar_matrix / BurgersScalarMatrixAssemblyJob; no Frechet term) and blocked (assemble_matrix /
+\* BurgersBlockedMatrixAssemblyJob / VoxelBurgersAssembler).  Laws: RoutesAgree on each combination; SumOfTerms: the matrix
+\* of a combination is the sum of the matrices of its single terms (on the same route); for the streamline diffusion term
+\* S alone: symmetric, constants in the kernel, linear in sd_delta, and u^T S u > 0 for u = x_1 (v . grad x_1 = v_1 is not
+\* identically zero for the fields of the catalogue), i.e. S is really there when switched on.
+BParams == <<"nu", "theta", "beta", "frechet", "sd">>
+BParVal(p) == CASE p = "nu" -> 3 [] p = "theta" -> 6 [] p = "beta" -> 2 [] p = "frechet" -> 1 [] p = "sd" -> 2     \* numerators over 4
+BParSet(blocked) == IF blocked THEN RangeA(BParams) ELSE RangeA(BParams) \ {"frechet"}
+BNeedsField(on) == on \cap {"beta", "frechet", "sd"} # {}
+BParFields == {0, 2}
+BParRoutes(blocked, shape, T) ==
+  {"burgers", "burgersjob"} \cup (IF blocked /\ T = "lagrange2" /\ shape = "hypercube" THEN {"voxel"} ELSE {})
+BParJob(blocked, on, defo, field, shape, dim, class, T) ==
+  [k |-> "bpar", blocked |-> blocked, on |-> SelectSeq(BParams, LAMBDA p : p \in on),
+   vals |-> [q \in 1..Len(SelectSeq(BParams, LAMBDA p : p \in on)) |-> BParVal(SelectSeq(BParams, LAMBDA p : p \in on)[q])],
+   defo |-> defo, field |-> field, deg |-> BReqDeg(Op("conv_b", <<field>>), shape, dim, class, T), alphas |-> << >>,
+   routes |-> SetToSeqA(BParRoutes(blocked, shape, T)), ref |-> "burgers"]
+BParOK(J, shape, dim, class, T) ==
+  LET on == RangeA(J.on) IN
+  /\ T \in BlockedSpaces /\ on # {} /\ on \subseteq BParSet(J.blocked)
+  /\ (J.defo => J.blocked /\ "nu" \in on)
+  /\ (~BNeedsField(on) => J.field = 0)
+  /\ J.field \in BParFields
+  /\ (BNeedsField(on) => \A k \in 1..dim : \A t \in RangeA(ConvField(dim, J.field)[k]) : t.e \in Monos(T, shape, dim, class))
+  /\ J = BParJob(J.blocked, on, J.defo, J.field, shape, dim, class, T)
+
+BParJobs(shape, dim, class, T) ==
+  {J \in {BParJob(b, on, defo, f, shape, dim, class, T) :
+            b \in BOOLEAN, on \in SUBSET RangeA(BParams), defo \in BOOLEAN, f \in BParFields} : BParOK(J, shape, dim, class, T)}
+
+\* ---- what a repeated call into the same (already filled) target does, per route -----------------------------------------
+\* accumulate: the result of the call is ADDED (alpha-weighted) onto the existing contents (AssembleTwice);
+\* overwrite : the target is formatted first, a repeated call reproduces the result of the first call (RepeatOverwrites)
+\* (apply1/apply2 format their output vector: a call with alpha into a filled vector yields alpha * A x)
+RepeatSemantics(r) == IF r \in {"gpdv", "gradop", "apply"} THEN "overwrite" ELSE "accumulate"
 
 \* vector routes: classic = LinearFunctionalAssembler::assemble_vector, domain = LinearFunctionalAssemblyJob,
 \* domainforce = ForceFunctionalAssemblyJob (force only)
@@ -355,6 +394,7 @@ JobsOf(p) == SetToSeqA(MatJobs(p.shape, p.dim, p.class, p.test, p.trial))
              \o (IF p.test = p.trial THEN SetToSeqA(VecJobs(p.shape, p.dim, p.class, p.test)) ELSE << >>)
              \o (IF p.test = p.trial THEN SetToSeqA(BlkJobs(p.shape, p.dim, p.class, p.test)) ELSE << >>)
              \o SetToSeqA(GDJobs(p.shape, p.dim, p.class, p.test, p.trial))
+             \o (IF p.test = p.trial THEN SetToSeqA(BParJobs(p.shape, p.dim, p.class, p.test)) ELSE << >>)
 
 Emit == PrintT(ToJson([plan |-> plan, jobs |-> JobsOf(plan)]))
 
